@@ -1,6 +1,6 @@
 /* VERIF-GROUP
 {
- "property": ["C15"],
+ "property": ["C15", "C17"],
  "entry": "h_skip_object",
  "enforce": ["skip_object"],
  "replace": ["skip_ws", "skip_string", "skip_value"],
